@@ -1,11 +1,12 @@
 #!/bin/sh
 # usage: with_patch.sh <patch.diff> <command...>
+# (PATCH_BASE=<commit> selects the commit the patch was written against; default HEAD)
 # Applies the patch to a scratch worktree of /repo (outside /repo and /verif), runs the command with
 # NAUTILUS_VERIF_REPO pointing at it, removes the worktree.  /repo itself is never touched.
 set -u
 PATCH=$(readlink -f "$1"); shift
 WT=$(mktemp -d /tmp/nvwt_XXXXXX)
-git -C /repo worktree add -q --detach "$WT" HEAD || exit 2
+git -C /repo worktree add -q --detach "$WT" "${PATCH_BASE:-HEAD}" || exit 2
 if ! git -C "$WT" apply "$PATCH"; then echo "patch does not apply"; git -C /repo worktree remove --force "$WT"; exit 2; fi
 NAUTILUS_VERIF_REPO="$WT" "$@"
 RC=$?
